@@ -303,8 +303,6 @@ theorem safe_searchLoop (H : RdHyp S U cfg) (mark : Nat) (backup : Text) (backup
       refine wp_refreshLine_inv S U cfg H.hnp h3 fun s4 h4 _ => ?_
       simp only [wp_changesEnd, wp_pure]
       exact rdinv_changes cfg h4 _
-    · simp only [wp_bind, wp_changesEnd, wp_pure]
-      exact rdinv_changes cfg h3 _
 
 theorem safe_reverseIncrementalSearch (H : RdHyp S U cfg) (fuel : Nat) {s : Ed} (h : RdInv cfg s) :
     RSafe cfg (reverseIncrementalSearch S U cfg fuel) s := by
